@@ -21,6 +21,24 @@ CHECKS = {
             'compared with the documented dense definition including mode order. Exploration, not proof.',
             'Trusts NumPy and vt/dense.py; inputs satisfy the documented preconditions (matching contracted dims, required '
             'boundary ranks 1, at least one ndarray block).', '3/C02'),
+    'C03': ('property-based testing (Hypothesis): invariants on before/after snapshots (dense value, Gram = I, rank monotone, untouched window)',
+            'Generated-input search over TT shapes incl. rank-deficient, over-parameterised and zero cores, all three sweeps and '
+            'every admissible (start, end) pair; invariants are evaluated independently of the library. Exploration, not proof.',
+            'Trusts NumPy and vt/dense.py; no truncation (threshold 0, max_rank inf).', '3/C03'),
+    'C04': ('property-based testing (Hypothesis): error-bound theorems evaluated from numpy.linalg.svd of the dense unfoldings',
+            'Generated tensors with flat, decaying, exactly low-rank(+noise) and zero spectra; all truncation entry points with int '
+            'and per-bond caps and thresholds in [0,1); the oracle is the TT-SVD quasi-optimality bound (with the resulting ranks), '
+            'the threshold bound theta*||T||*sqrt(D), the rank cap and exactness at threshold 0. Theorem-based oracles cannot raise '
+            'false alarms on correct code. Exploration, not proof.',
+            'Trusts numpy.linalg.svd; slack 1e-9*||T||; zero tensor only with threshold 0; error bounds only where the opposite '
+            'side is orthonormal.', '3/C04'),
+    'C05': ('property-based testing (Hypothesis): differential against numpy.linalg.svd / pinv of the dense unfolding',
+            'Generated vector-type TTs (generic incl. rank-deficient, constructed U diag(s) V with gapped spectra, pre-orthonormalised) '
+            'with every split index, negligible and real (gap-placed) thresholds, overwrite and ortho flags; compares singular values, '
+            'isometries, reconstruction and the pseudoinverse (conjugate transpose convention) and checks the input is untouched. '
+            'Exploration, not proof.',
+            'Trusts NumPy; real cuts only on inputs with orthonormal factors (see DESIGN C05); guard band on singular values via assume.',
+            '3/C05'),
 }
 
 BUILT = set(CHECKS)
